@@ -18,8 +18,9 @@ Proof.
   { apply C1. rewrite E1. exact HP. }
   assert (H2 : locally x (fun y => P (f2 y))).
   { apply C2. rewrite E2. exact HP. }
+  unfold filtermap.
   generalize (filter_and _ _ H1 H2). apply filter_imp.
-  intros y [A B]. unfold filtermap. destruct (Hsel y) as [E|E]; rewrite E; assumption.
+  intros y [A B]. destruct (Hsel y) as [E|E]; rewrite E; assumption.
 Qed.
 
 Lemma is_derive_glue (f f1 f2 : R -> R) (x l : R) :
@@ -34,10 +35,8 @@ Proof.
   { symmetry. apply is_filter_lim_locally_unique. exact Hx0. }
   subst x0.
   generalize (filter_and _ _ D1 D2). apply filter_imp.
-  intros y [A B]. rewrite <- E1 at 1. rewrite <- E2 in B at 1.
-  destruct (Hsel y) as [E|E]; rewrite E.
-  - exact A.
-  - rewrite E1. rewrite E2 in B. rewrite <- E2. exact B.
+  intros y [A B]. rewrite E1 in A. rewrite E2 in B.
+  destruct (Hsel y) as [E|E]; rewrite E; assumption.
 Qed.
 
 (* ---- the slope of the manual's per-event function *)
@@ -55,6 +54,16 @@ Proof. intros H. unfold Taylor. auto_derive; [trivial|]. field. lra. Qed.
 
 Lemma log_derive a : 0 < 1 + a -> is_derive (fun t => ln (1 + t)) a (/ (1 + a)).
 Proof. intros H. auto_derive; [lra|]. field. lra. Qed.
+
+Lemma inv_derive a :
+  0 < 1 + a -> is_derive (fun t => / (1 + t)) a (- / ((1 + a) * (1 + a))).
+Proof. intros H. auto_derive; [lra|]. field. lra. Qed.
+
+Lemma lin_derive alpha a :
+  0 < 1 + alpha ->
+  is_derive (fun t => / (1 + alpha) - (t - alpha) / (1 + alpha) / (1 + alpha)) a
+            (- / ((1 + alpha) * (1 + alpha))).
+Proof. intros H. auto_derive; [trivial|]. field. lra. Qed.
 
 Lemma loc_gt (alpha a : R) : alpha < a -> locally a (fun t => alpha < t).
 Proof.
@@ -120,10 +129,11 @@ Proof.
   - intros y. unfold dLam. destruct (Rlt_dec alpha y); [left|right]; reflexivity.
   - unfold dLam. destruct (Rlt_dec alpha alpha); [lra|]. field. lra.
   - unfold dLam. destruct (Rlt_dec alpha alpha); [lra|]. reflexivity.
-  - apply (ex_derive_continuous (fun a => / (1 + a)) alpha). auto_derive. lra.
+  - apply (ex_derive_continuous (fun a => / (1 + a)) alpha).
+    exists (- / ((1 + alpha) * (1 + alpha))). apply inv_derive. exact Hpos.
   - apply (ex_derive_continuous
              (fun a => / (1 + alpha) - (a - alpha) / (1 + alpha) / (1 + alpha)) alpha).
-    auto_derive. trivial.
+    exists (- / ((1 + alpha) * (1 + alpha))). apply lin_derive. exact Hpos.
 Qed.
 
 (* the expansion IS the second-order Taylor polynomial of ln(1+.) at alpha:
@@ -139,13 +149,13 @@ Theorem Taylor_is_second_order alpha :
   /\ (forall a, is_derive (Taylor alpha) a
                   (/ (1 + alpha) - (a - alpha) / (1 + alpha) / (1 + alpha))).
 Proof.
-  intros H. repeat split.
+  intros H. split; [|split; [|split; [|split; [|split]]]].
   - apply Taylor_at.
   - apply log_derive. exact H.
   - replace (/ (1 + alpha)) with (/ (1 + alpha) - (alpha - alpha) / (1 + alpha) / (1 + alpha))
       by (field; lra).
     apply Taylor_derive. exact H.
-  - auto_derive; [lra|]. field. lra.
-  - auto_derive; [trivial|]. field. lra.
+  - apply inv_derive. exact H.
+  - apply lin_derive. exact H.
   - intros a. apply Taylor_derive. exact H.
 Qed.
